@@ -199,10 +199,10 @@ func runArchiveScenario(seed uint64, size int, t *Trace) error {
 		}
 	}
 	bursts := map[string]func(){
-		"device+report":         newDevice,
-		"register+device":       func() { register(); newDevice() },
-		"rotation":              func() { glow.SetCurrentTimeslot(glow.CurrentTimeslot() + 1); e.S.VerifMigrateNow() },
-		"reports":               func() { report(); report(); report() },
+		"device+report":          newDevice,
+		"register+device":        func() { register(); newDevice() },
+		"rotation":               func() { glow.SetCurrentTimeslot(glow.CurrentTimeslot() + 1); e.S.VerifMigrateNow() },
+		"reports":                func() { report(); report(); report() },
 		"device+report+rotation": func() { newDevice(); e.S.VerifMigrateNow(); newDevice() },
 	}
 	names := []string{"device+report", "register+device", "rotation", "reports", "device+report+rotation"}
